@@ -37,12 +37,13 @@ def h_tz_parse_format(eng):
     eng.prove(out == txt, "timezone text survives parse -> format")
 
 
-def h_time_entry(eng, plen=3, tmax=2 ** 62):
-    """parse_time_entry(format_time_entry(person, time, tz)) returns the same triple"""
+def h_time_entry(eng, plen=3, tmax=2 ** 62, tneg=None, zneg=None):
+    """parse_time_entry(format_time_entry(person, time, tz)) returns the same triple
+    (tneg / zneg: partition of the time and zone ranges by sign; None = the whole range)"""
     who = eng.bytes("person", plen)
     person = who + b" <" + eng.bytes("mail", 1) + b">"
-    t = eng.int("time", -tmax, tmax)
-    m = eng.int("tzmin", -1439, 1439)
+    t = eng.int("time", *((-tmax, tmax) if tneg is None else ((-tmax, -1) if tneg else (0, tmax))))
+    m = eng.int("tzmin", *((-1439, 1439) if zneg is None else ((-1439, -1) if zneg else (0, 1439))))
     line = O.format_time_entry(person, t, (m * 60, False))
     p2, t2, (tz2, n2) = O.parse_time_entry(line)
     eng.prove(p2 == person, "identity survives")
@@ -293,7 +294,8 @@ def checks(tier):
                bounds="every [+-]HHMM with MM < 60 (20 000 spellings incl. -0000)", outside="'--HMM' and unsigned spellings",
                pins=[(0, {"sign": 45, "d0": 0, "d1": 0, "d2": 0, "d3": 0}), (0, {"sign": 43, "d0": 1, "d1": 4, "d2": 0, "d3": 0})],
                width=40, tiers=q),
-        KCheck("C01b.time_entry", h_time_entry, parts=[{"plen": n, "tmax": 10 ** 5} for n in (0, 1)],
+        KCheck("C01b.time_entry", h_time_entry,
+               parts=[{"plen": n, "tmax": 10 ** 5, "tneg": tn, "zneg": zn} for n in (0, 1) for tn in (False, True) for zn in (False, True)],
                encoded=[o + "format_time_entry", o + "parse_time_entry", o + "parse_timezone", o + "format_timezone"],
                bounds="identity of 0 or 1 symbolic bytes + 1 symbolic mail byte (incl. '<', '>', blanks), every time in "
                       "[-10^5, 10^5] (negative and multi-digit), every whole-minute zone within +-24 h",
